@@ -379,10 +379,11 @@ impl Polynomial<Cmplx> {
                 Cmplx::polar( 1.0 + abx, iter as f64 )
             };
             // A step that leaves the disc containing all the roots (p' and p'' nearly zero at x, as for
-            // x^8 - 1 + O(1e-9) at x = 0) only starts a huge/tiny oscillation: restart from a point inside the
-            // disc instead ( the fallback step of modulus 1 + |x| leaves a disc of radius < 1 again, and
-            // x^12 + 6e-4 x^7 + 8e-6 x + 8e-6 cycled between 0 and 1 until MAXIT )
-            if ( *x - dx ).abs() > bound { dx = *x - Cmplx::polar( 0.5 * bound, iter as f64 ); }
+            // x^8 - 1 + O(1e-9) at x = 0) only starts a huge/tiny oscillation: step by the geometric mean of the
+            // distances to the roots, |p( x ) / a_m|^(1/m), instead ( the fallback step of modulus 1 + |x| leaves a disc
+            // of radius < 1 again, and x^12 + 6e-4 x^7 + 8e-6 x + 8e-6 cycled between 0 and 1 until MAXIT; a restart far
+            // from x, on the circle of radius bound / 2, came straight back to the centre of ( x - 1 )^8 + 1e-4, 79 times )
+            if ( *x - dx ).abs() > bound { dx = Cmplx::polar( ( b / a[m] ).abs().powf( 1.0 / m as f64 ), iter as f64 ); }
             if !( dx.real.is_finite() && dx.imag.is_finite() ) { return; } // cannot improve x any further
             let x1 = *x - dx;
             if *x == x1 { return; }
